@@ -108,3 +108,30 @@ Definition Qcar : arith Qc :=
      aeqb := fun a b => Qeq_bool a b; acmp := fun a b => Some (a ?= b)%Qc; aiszero := fun b => Qeq_bool b 0 |}.
 Lemma gq_hampel thr s x : g_hampel_step Qcar mad_factor thr s x = hampel_step thr s x.
 Proof. reflexivity. Qed.
+
+(* The freshly constructed states of the generic models, at the rationals, are the initial states of the registry
+   machines of C12 / C20, and every registry `reset` returns to them. *)
+From Signalo Require Model.Registry Model.Bounds.
+Import Registry.
+Lemma gq_init_differentiate c s : g_diff_init = minit m_differentiate c /\ mreset m_differentiate c s = minit m_differentiate c. Proof. split; reflexivity. Qed.
+Lemma gq_init_integrate c s : g_int_init Qar = minit m_integrate c /\ mreset m_integrate c s = minit m_integrate c. Proof. split; reflexivity. Qed.
+Lemma gq_init_exp_mean c s : g_ema_init = minit m_exp_mean c /\ mreset m_exp_mean c s = minit m_exp_mean c. Proof. split; reflexivity. Qed.
+Lemma gq_init_exp_median c s : xm_of g_xm_init = minit m_exp_median c /\ mreset m_exp_median c s = minit m_exp_median c. Proof. split; reflexivity. Qed.
+Lemma gq_init_alpha_beta c s : ab_of (g_ab_init Qar) = minit m_alpha_beta c /\ mreset m_alpha_beta c s = minit m_alpha_beta c. Proof. split; reflexivity. Qed.
+Lemma gq_init_kalman c s : k_of (g_k_init Qar) = minit m_kalman c /\ mreset m_kalman c s = minit m_kalman c. Proof. split; reflexivity. Qed.
+Lemma gq_init_mean c s : mean_of (g_mean_init Qar) = minit m_mean c /\ mreset m_mean c s = minit m_mean c. Proof. split; reflexivity. Qed.
+Lemma gq_init_mean_variance c s : mvw_of (g_mvw_init Qar) = minit m_mean_variance c /\ mreset m_mean_variance c s = minit m_mean_variance c. Proof. split; reflexivity. Qed.
+Lemma gq_init_exp_mean_variance c s : g_mve_init = minit m_exp_mean_variance c /\ mreset m_exp_mean_variance c s = minit m_exp_mean_variance c. Proof. split; reflexivity. Qed.
+Lemma gq_init_convolve c s : g_conv_init = minit m_convolve c /\ mreset m_convolve c s = minit m_convolve c. Proof. split; reflexivity. Qed.
+Lemma gq_init_delay c s : g_conv_init = minit m_delay c /\ mreset m_delay c s = minit m_delay c. Proof. split; reflexivity. Qed.
+Lemma gq_init_analyze c s : g_wav_init = minit m_analyze c /\ mreset m_analyze c s = minit m_analyze c. Proof. split; reflexivity. Qed.
+Lemma gq_init_synthesize c s : g_wav_init = minit m_synthesize c /\ mreset m_synthesize c s = minit m_synthesize c. Proof. split; reflexivity. Qed.
+Lemma gq_init_max c s : Bounds.init = minit m_max c /\ mreset m_max c s = minit m_max c. Proof. split; reflexivity. Qed.
+Lemma gq_init_min c s : Bounds.init = minit m_min c /\ mreset m_min c s = minit m_min c. Proof. split; reflexivity. Qed.
+Lemma gq_init_bounds c s : (Bounds.init, Bounds.init) = minit m_bounds c /\ mreset m_bounds c s = minit m_bounds c. Proof. split; reflexivity. Qed.
+Lemma gq_init_schmitt c s : false = minit m_schmitt c /\ mreset m_schmitt c s = minit m_schmitt c. Proof. split; reflexivity. Qed.
+Lemma gq_init_debounce c s : 0%N = minit m_debounce c /\ mreset m_debounce c s = minit m_debounce c. Proof. split; reflexivity. Qed.
+Lemma gq_init_slopes c s : None = minit m_slopes c /\ mreset m_slopes c s = minit m_slopes c. Proof. split; reflexivity. Qed.
+Lemma gq_init_peaks c s : (None, None) = minit m_peaks c /\ mreset m_peaks c s = minit m_peaks c. Proof. split; reflexivity. Qed.
+Lemma gq_reset_threshold c s : mreset m_threshold c s = s. Proof. reflexivity. Qed.
+Lemma gq_reset_cache m c s : mreset (m_cache m) c s = (mreset m c (fst s), None). Proof. reflexivity. Qed.
